@@ -187,3 +187,7 @@ def run(chk, replay):
         chk.traces += 1
         if v:
             chk.violation(sigs, v, {"sc": sc, "cfgseed": cfgseed, "axes": axes, "sel": sel, "sigs": sigs})
+    # hierarchies whose levels refine by 4, or by different ratios from one level to the next (Refine.tla): the index of a point
+    # follows the level's OWN cell size
+    from harness import refine
+    refine.phase(chk, "point")
